@@ -4,6 +4,7 @@ the dumped automaton, well-formedness of the dump, traversal and baseline on the
 implementation's own artefacts, and the occurrence oracles (C01–C09).
 -/
 import Driver.Dump
+import PmVerif.Model.ManyMatcher
 import PmVerif.Spec.Occurs
 namespace Drv
 open Pm
@@ -65,6 +66,10 @@ structure E2EDom (K V P H M Pat : Type) where
   /-- compare the baseline's results in emission order (false: as multisets, where the order
   depends on a hash iteration order, c9) -/
   orderedBaseline : Bool := true
+  /-- hosts to enumerate exhaustively when the replay hits a model guard (search for a
+  concrete failing input on the dumped automaton) -/
+  windows : List Pat → List H := fun _ => []
+  sHost : H → String := fun _ => "?"
 
 structure E2EOut where
   oracle : List String := []
@@ -134,12 +139,41 @@ def handleE2E {K V P H M Pat} [DecidableEq K] [DecidableEq V] [DecidableEq P]
     match cvs.getD i none, pats[i]? with
     | some cv, some p => some (i, cv, dom.extraKeys p)
     | _, _ => none
-  match Automaton.build dom.toTree dom.D.req FUEL inputs evs with
+  -- the replay follows the Rust code (no make_det guard) and must reproduce the dump exactly
+  match Automaton.buildL dom.toTree dom.D.req FUEL inputs evs with
   | .error e => out := { out with dis := out.dis ++ [s!"BUILD.replay model-error {e}"] }
   | .ok a =>
     match compareWithDump a dump with
     | some d => out := { out with dis := out.dis ++ [s!"BUILD.replay {d}"] }
     | none => pure ()
+  -- the guarded build is the one the builder theorem (T-BUILD) speaks about; when a guard
+  -- fires, this build is outside the region the theorem covers: search the dumped automaton
+  -- (model traversal, which the RUN stage ties to the implementation) for a failing host.
+  let mut guardHit := false
+  match Automaton.build dom.toTree dom.D.req FUEL inputs evs with
+  | .ok _ => pure ()
+  | .error _ =>
+    guardHit := true
+    match dom.judge with
+    | none => pure ()
+    | some judge =>
+      let A := dump.toAutomaton
+      let mut found := false
+      for hw in dom.windows pats do
+        if !found then
+          match Pm.run dom.D A hw FUEL with
+          | .error _ => pure ()
+          | .ok (ms, _) =>
+            for i in idx do
+              match pats[i]?, cvs.getD i none with
+              | some p, some _ =>
+                let got := (ms.filter (·.1 == i)).map (·.2)
+                let (fp, missed, dups) := judge p hw got
+                if !found && (!fp.isEmpty || !missed.isEmpty || !dups.isEmpty) then
+                  found := true
+                  out := { out with oracle := out.oracle ++
+                    [s!"{if !fp.isEmpty then "C01" else if !missed.isEmpty then "C02" else "C07"} window-search host={dom.sHost hw} pattern={i} false-pos={join fp} missed={join missed} dups={join dups}"] }
+              | _, _ => pure ()
   -- (d) heuristic answers
   let answers := loggedAnswers evs
   if !heurConsistent heur answers then
@@ -237,14 +271,11 @@ def handleE2E {K V P H M Pat} [DecidableEq K] [DecidableEq V] [DecidableEq P]
     [s!"dom={dom.name}", s!"patterns={pats.length}", s!"states={dump.states.length}",
      s!"asks={answers.length}", s!"yes={(answers.filter id).length}"] ++
     (if nMerges > 0 then ["merge"] else []) ++ (if nFuse > 0 then ["fuse"] else []) ++
-    (if nOcc > 0 then ["occ"] else []) ++
+    (if nOcc > 0 then ["occ"] else []) ++ (if guardHit then ["outside-tbuild-guard"] else []) ++
     (if nMatches > 0 || nMerges > 0 || nFuse > 0 then ["nt"] else []) }
   pure out.render
 
 /-! ### domain instances -/
-
-def strDomain : Domain Nat Nat CharPred (List Nat) StrPos :=
-  { req := strReq, opts := strOpts, map := strPosMap, arity := CharPred.arity, check := fun p h vs => strCheck p h vs }
 
 def pCharVar : Parser CharVar := do
   let k ← pNat
@@ -273,20 +304,26 @@ def judgeExpected {Pat H M} (sMap : M → String) (exp : Pat → H → List M) (
   (gotS.filter fun g => !want.contains g, want.filter fun w => !gotS.contains w,
     multisetDiff gotS gotS.eraseDups)
 
+/-- all hosts of length ≤ 5 over the literals of the patterns plus one fresh character -/
+def strWindows (pats : List (List CharVar)) : List (List Nat) :=
+  let lits := (pats.flatMap fun p => p.filterMap fun cv => match cv with | .lit c => some c | _ => none).eraseDups
+  let alpha := lits ++ [1000]
+  let rec go : Nat → List (List Nat)
+    | 0 => [[]]
+    | n + 1 => let prev := go n; prev ++ (prev.filter (·.length == n)).flatMap fun h => alpha.map fun c => h ++ [c]
+  go 6
+
 def strE2E : E2EDom Nat Nat CharPred (List Nat) StrPos (List CharVar) :=
   { name := "STR", D := strDomain, toTree := charTree natLt,
     pKey := pNat, pCons := pSCons, pPat := pList pCharVar, pHost := pList pNat, pMap := pStrPos,
     sMap := sStrPos, convert := fun p => some (strConstraints p), consEq := fun a b => a == b,
-    extraKeys := fun _ => [], judge := some (judgeExpected sStrPos strExpected) }
+    extraKeys := fun _ => [], judge := some (judgeExpected sStrPos strExpected),
+    windows := strWindows, sHost := sNats }
 
 end Drv
 
 namespace Drv
 open Pm
-
-def matDomain : Domain MKey MVal CharPred MatHost MatPos :=
-  { req := matReq, opts := matOpts, map := matPosMap, arity := CharPred.arity,
-    check := fun p h vs => matCheck p h vs }
 
 def pMatCell : Parser (Option CharVar) := do
   let k ← pNat
